@@ -154,19 +154,20 @@ pub fn append_rule(rule: Arc<Rule>) -> bool {
         ),
     }
     let mut placeholder = Vec::new();
+    // take `BREAKER_MAP` before `BREAKER_RULES`, the order `load_rules` and
+    // `load_rules_of_resource` use, so that a concurrent reload cannot deadlock with us
+    let mut breaker_map = BREAKER_MAP.write().unwrap();
+    let breaker_rules = BREAKER_RULES.read().unwrap();
     let new_tcs_of_res = build_resource_circuit_breaker(
         &rule.resource,
-        BREAKER_RULES.read().unwrap().get(&rule.resource).unwrap(),
-        BREAKER_MAP
-            .write()
-            .unwrap()
+        breaker_rules.get(&rule.resource).unwrap(),
+        breaker_map
             .get_mut(&rule.resource)
             .unwrap_or(&mut placeholder),
     );
+    drop(breaker_rules);
     if !new_tcs_of_res.is_empty() {
-        BREAKER_MAP
-            .write()
-            .unwrap()
+        breaker_map
             .entry(rule.resource.clone())
             .or_default()
             .push(Arc::clone(&new_tcs_of_res[0]));
